@@ -15,12 +15,13 @@ Import ListNotations RecordSetNotations.
        the snapshot is the registry content, the registry lock is held until the shutdown has returned). *)
 Definition byapi_of (o : obs) (th : tid) : bool :=
   match get th (o_api o) with Some OpRun | None => false | Some _ => true end.
+Definition is_run (o : obs) (th : tid) : bool := match get th (o_api o) with Some OpRun => true | _ => false end.
 Definition snap_of (o : obs) (th : tid) : list iid := match get th (o_sd_cur o) with Some l => l | None => [] end.
 Definition begun (o : obs) (i : iid) : bool := existsb (fun q => N.eqb (snd q) i) (o_th o).
 Definition excused (o : obs) (i : iid) (xo : oinst) : bool := o_byapi xo && negb (o_insnap xo) && negb (begun o i).
 Definition escape_C03 (o : obs) (te : tid * event) : bool :=
   match snd te with
-  | ENewInst i n => Nat.ltb 0 (o_sd_done o) && negb (byapi_of o (fst te))
+  | ENewInst i n => Nat.ltb 0 (o_sd_done o) && is_run o (fst te)
   | EShutdownEnd => existsb (fun p => negb (memN (fst p) (snap_of o (fst te))) && negb (o_gone (snd p)) &&
                                       negb (excused o (fst p) (snd p))) (oi o)
   | _ => false
@@ -77,6 +78,55 @@ Proof.
        (split; [first [left; reflexivity | right; apply opt_eqb_N_eq; assumption]|auto; try (intros; discriminate)]).
   all: destruct s1; cbn; intros; discriminate.
 Qed.
+
+(* ---- API calls: the model's program counter and the observer's o_api agree -------------------------------------- *)
+Definition api_rel (a : apipc) (oa : option apiop) : bool :=
+  match a with
+  | ARun _ => match oa with Some OpRun => true | _ => false end
+  | AStart _ | AStartSpawn _ | ARestart _ | ARestartStopping _ _ | ARestartSpawn _ =>
+      match oa with Some OpRun | None => false | Some _ => true end
+  | _ => true
+  end.
+Definition oa_next (e : event) (oa : option apiop) : option apiop :=
+  match e with EApiBegin op => Some op | EApiReturn _ => None | _ => oa end.
+
+Lemma step_core_apc s th e s' : step_core s th e = Some s' ->
+  (forall th', th' <> th -> apc (get_thread s' th') = apc (get_thread s th')) /\
+  forall oa, api_rel (apc (get_thread s th)) oa = true -> api_rel (apc (get_thread s' th)) (oa_next e oa) = true.
+Proof.
+  intros H. unfold step_core in H. destruct e; kind_cases H.
+  all: try match goal with |- context[match dpc ?t with _ => _ end] => destruct (dpc t) as [| | |? [|? ?]| |] end.
+  all: split; [intros th' Hne; unfold set_pc, end_finish; autorewrite with sup;
+               try rewrite (proj2 (N.eqb_neq th th')) by congruence;
+               repeat match goal with |- context[if ?b then _ else _] => destruct b end; autorewrite with sup;
+               try rewrite (proj2 (N.eqb_neq th th')) by congruence; reflexivity|].
+  all: intros oa; unfold set_pc, end_finish; autorewrite with sup; rewrite ?N.eqb_refl; cbn [oa_next apc];
+       repeat match goal with |- context[if ?b then _ else _] => destruct b end; autorewrite with sup; rewrite ?N.eqb_refl; cbn;
+       repeat match goal with E : apc _ = _ |- _ => rewrite E; clear E end; cbn; auto.
+  1-3: destruct found; cbn; auto.
+  destruct (apc (get_thread s th)); cbn; auto.
+Qed.
+
+Lemma oi_upd_o_api i f o : o_api (oi_upd i f o) = o_api o. Proof. now apply (oi_upd_proj o_api). Qed.
+Lemma on_upd_o_api i f o : o_api (on_upd i f o) = o_api o. Proof. now apply (on_upd_proj o_api). Qed.
+Lemma note_late_o_api o i : o_api (note_late_commit o i) = o_api o.
+Proof. unfold note_late_commit. destruct (o_stopreq _); [destruct (stopping o i)|]; reflexivity. Qed.
+#[export] Hint Rewrite oi_upd_o_api on_upd_o_api note_late_o_api : obsf.
+
+Lemma obs_pre_api cs o th e th' :
+  get th' (o_api (obs_pre cs o (th, e))) = if N.eqb th th' then oa_next e (get th (o_api o)) else get th' (o_api o).
+Proof.
+  assert (Hsame : o_api (obs_pre cs o (th, e)) = o_api o ->
+                  match e with EApiBegin _ | EApiReturn _ => False | _ => True end ->
+                  get th' (o_api (obs_pre cs o (th, e))) = if N.eqb th th' then oa_next e (get th (o_api o)) else get th' (o_api o)).
+  { intros -> He. destruct (N.eqb_spec th th'); [subst|reflexivity]. destruct e; try contradiction; reflexivity. }
+  destruct e; try (apply Hsame; [|exact I]; obs_cases o th; try reflexivity;
+                   repeat match goal with |- context[if ?b then _ else _] => destruct b end; cbn; autorewrite with obsf; try reflexivity;
+                   fold_proj o_api; reflexivity).
+  - cbn. apply get_set.
+  - cbn. rewrite get_del. destruct (N.eqb th th'); reflexivity.
+Qed.
+
 
 (* ---- observer: o_byapi, o_insnap, o_stopreq ---------------------------------------------------------------------- *)
 Definition oai_le (x x' : oinst) : Prop :=
@@ -136,7 +186,14 @@ Definition aft_ok (o : obs) (i : iid) (x : inst) (xo : oinst) : Prop :=
 Definition c_aft (s : sys) (o : obs) : Prop :=
   0 < o_sd_done o -> forall i x xo, get i (insts s) = Some x -> get i (oi o) = Some xo -> aft_ok o i x xo.
 
-Record Inv2 (s : sys) (o : obs) : Prop := mkInv2 { iv_beg : c_beg s; iv_aft : c_aft s o }.
+Definition c_api (s : sys) (o : obs) : Prop := forall th, api_rel (apc (get_thread s th)) (get th (o_api o)) = true.
+Record Inv2 (s : sys) (o : obs) : Prop := mkInv2 { iv_beg : c_beg s; iv_aft : c_aft s o; iv_api : c_api s o }.
+
+Lemma c_api_core s o th e s' : c_api s o -> step_core s th e = Some s' -> c_api s' (obs_pre cs o (th, e)).
+Proof.
+  intros HP H th'. destruct (step_core_apc _ _ _ _ H) as [Hoth Hth]. rewrite obs_pre_api.
+  destruct (N.eqb_spec th th'); [subst th'; apply Hth, HP|]. rewrite Hoth by congruence. apply HP.
+Qed.
 Definition R4 (s : sys) (o : obs) : Prop := Rc cs s o /\ Inv s o /\ Inv2 s o.
 
 Lemma R4_init ord : R4 (init cs ord) (obs0 cs).
@@ -144,6 +201,7 @@ Proof.
   split; [apply Rc_init|]. split; [apply Inv_init|]. constructor.
   - intros i x H. cbn in H. discriminate.
   - intros H. cbn in H. lia.
+  - intros th. reflexivity.
 Qed.
 
 Lemma aft_ok_mono o o' i x x' xo xo' :
@@ -158,7 +216,7 @@ Qed.
 
 Lemma Inv2_flush th s o : Inv2 s o -> Inv2 (flush th s) o.
 Proof.
-  intros [HB HA]. constructor.
+  intros [HB HA HP]. constructor; [| |intros th'; destruct (flush_thread th s th') as (Ea & _); rewrite Ea; apply HP].
   - intros i x' Hx'. destruct (flush_bwd _ _ _ _ Hx') as (x & Hx & (_ & Ep & _)). rewrite flush_thinst, Ep. eauto.
   - intros Hsd i x' xo Hx' Hxo. destruct (flush_bwd _ _ _ _ Hx') as (x & Hx & (_ & Ep & _ & _ & _ & Hr & _)).
     eapply (aft_ok_mono o o i x x' xo xo); [auto|eapply nl_mono; eauto|apply oai_le_refl|rewrite Ep; auto|eauto].
@@ -166,7 +224,7 @@ Qed.
 
 Lemma Inv2_refresh s o : Inv2 s o -> Inv2 s (refresh_succ o).
 Proof.
-  intros [HB HA]. constructor; [exact HB|].
+  intros [HB HA HP]. constructor; [exact HB| |exact HP].
   intros Hsd i x xo' Hx Hxo'. rewrite refresh_get in Hxo'. destruct (get i (oi o)) as [xo|] eqn:Hxo; [|discriminate].
   cbn in Hxo'. injection Hxo' as <-.
   eapply (aft_ok_mono o (refresh_succ o) i x x xo); [auto|auto| |auto|apply HA; auto].
@@ -176,10 +234,10 @@ Qed.
 Lemma Inv2_own s o th e s' : Rc cs s o -> Inv s o -> Inv2 s o -> step_own s th e = Some s' ->
   W_C03 (obs_pre cs o (th, e)) = false -> Inv2 s' (obs_pre cs o (th, e)).
 Proof.
-  intros HRc HI [HB HA] H HW. pose proof (step_own_ev _ _ _ _ H) as Hev.
+  intros HRc HI [HB HA HP] H HW. pose proof (step_own_ev _ _ _ _ H) as Hev.
   destruct (step_own_mono _ _ _ _ H) as (i & x & x' & Hth & Hx & Hx' & Hoth & En & Ed & Er & Hg & Hnl & Hrp & Hbad & Hthr).
   destruct (step_own_cpc _ _ _ _ H) as [Eti Hcpc].
-  constructor.
+  constructor; [| |eapply c_api_core; [exact HP|rewrite step_core_own by exact Hev; exact H]].
   - intros j y' Hy'. rewrite Eti. destruct (N.eq_dec j i) as [->|Hne]; [right; eauto|]. rewrite (Hoth j Hne) in Hy'. eauto.
   - intros Hsd j y' yo' Hy' Hyo'.
     rewrite obs_pre_sd_done in Hsd by (destruct e; try discriminate Hev; exact I).
@@ -213,9 +271,9 @@ Qed.
 Lemma Inv2_nonown s o th e s' : Rc cs s o -> Inv s o -> Inv2 s o -> step_core s th e = Some s' -> own_ev e = false ->
   W_C03 (obs_pre cs o (th, e)) = false -> escape_C03 o (th, e) = false -> Inv2 s' (obs_pre cs o (th, e)).
 Proof.
-  intros HRc HI [HB HA] H Hev HW Hesc.
+  intros HRc HI [HB HA HP] H Hev HW Hesc.
   pose proof (step_core_thinst _ _ _ _ H Hev) as Hti. pose proof (step_core_cpc _ _ _ _ H Hev) as Hcp.
-  constructor.
+  constructor; [| |eapply c_api_core; eauto].
   - intros j x' Hx'.
     destruct (step_core_inst_bwd _ _ _ _ H Hev j x' Hx') as [(x & Hx & L)|(Hnx & n & c & -> & Hc & ->)].
     + destruct (Hcp j x x' Hx Hx') as [[Ep|Hown] _].
@@ -267,9 +325,11 @@ Proof.
            ++ apply negb_false_iff in He. unfold excused in He. apply andb_true_iff in He. destruct He as [He _].
               apply andb_true_iff in He. destruct He as [He1 He2]. apply negb_true_iff in He2.
               right. right. left. auto.
-    + (* the new instance *) left. cbn in Hsd |- *. unfold escape_C03, byapi_of in Hesc. cbn [fst snd] in Hesc.
+    + (* the new instance *) left. cbn in Hsd |- *. unfold escape_C03, is_run in Hesc. cbn [fst snd] in Hesc.
+      pose proof (HP th) as Ha. unfold step_core, step_reg in H. break_step H. unfold creates in *.
       destruct (o_sd_done o) as [|k]; [lia|]. cbn in Hesc.
-      destruct (get th (o_api o)) as [[]|]; cbn in Hesc; try discriminate; cbn; now rewrite N.eqb_refl.
+      destruct (apc (get_thread s th)); try discriminate; cbn in Ha;
+      destruct (get th (o_api o)) as [[]|]; cbn in Hesc, Ha; try discriminate; cbn; now rewrite N.eqb_refl.
 Qed.
 
 (* ---- one step --------------------------------------------------------------------------------------------------------- *)
@@ -294,7 +354,7 @@ Qed.
 Lemma mon_core s o th e s' : Rc cs s o -> Inv s o -> Inv2 s o -> step_core s th e = Some s' ->
   escape_C03 o (th, e) = false -> mon_C03 cs o (th, e) = true.
 Proof.
-  intros HRc HI [HB HA] H Hesc. unfold mon_C03. cbn [fst snd].
+  intros HRc HI [HB HA HP] H Hesc. unfold mon_C03. cbn [fst snd].
   destruct e; try reflexivity; try (destruct (ev_inst o th _); reflexivity).
   - (* ELaunch *)
     destruct ok; [|try reflexivity; cbn; destruct (get th (o_th o)); reflexivity].
